@@ -270,7 +270,8 @@ Definition frag_eq_frag (radius hd : Z) (s o : frag) : bool :=
 
 (* molecule == fragment: Molecule defines no __eq__, so Python evaluates Fragment.__eq__(fragment, molecule) *)
 Definition frag_eq_mol (radius hd : Z) (s : frag) (o : mol) : bool :=
-  fragment_eq true true (umi_eq hd (f_umi s) (m_umi o)) radius
+  (* a buffered molecule has integer spanStart / spanEnd (never None): Molecule.has_valid_span on (not None, not None) *)
+  fragment_eq true (mol_has_valid_span true true) (umi_eq hd (f_umi s) (m_umi o)) radius
     (f_sample s) (f_strand s) (f_chrom s) (f_start s) (f_end s)
     (m_sample o) (m_strand o) (m_chrom o) (m_start o) (m_end o).
 
